@@ -438,3 +438,228 @@ def _serde_argtype(repo):
     lean = (f"def serdeArgTypeAsModelled : Bool := {'true' if val['serde_arg'] else 'false'}\n"
             f"def optionArgTypeAsModelled : Bool := {'true' if val['option_arg'] else 'false'}")
     return val, lean
+
+
+# ------------------------------------------------------------------ dispatch of the deserializer on the source value
+def _strip_comments(s):
+    return re.sub(r"//[^\n]*", "", s)
+
+
+def _top_split(s, sep):
+    """split at top-level occurrences of `sep` (outside (), [], {}, strings)"""
+    out, depth, i, last, instr = [], 0, 0, 0, False
+    while i < len(s):
+        c = s[i]
+        if instr:
+            if c == "\\":
+                i += 1
+            elif c == '"':
+                instr = False
+        elif c == '"':
+            instr = True
+        elif c in "([{":
+            depth += 1
+        elif c in ")]}":
+            depth -= 1
+        elif depth == 0 and s.startswith(sep, i):
+            out.append(s[last:i])
+            i += len(sep)
+            last = i
+            continue
+        i += 1
+    out.append(s[last:])
+    return out
+
+
+def _match_arms(text):
+    """(scrutinee, [(pattern text, rhs text)]) of the first `match` in `text`, or None"""
+    m = re.search(r"\bmatch\s+([^{]*?)\s*\{", text)
+    if not m:
+        return None
+    i = m.end() - 1
+    depth, j = 0, i
+    while True:
+        c = text[j]
+        depth += (c == "{") - (c == "}")
+        if depth == 0:
+            break
+        j += 1
+    body = text[i + 1:j]
+    arms, k, n = [], 0, len(body)
+    while True:
+        while k < n and body[k] in " \t\r\n,":
+            k += 1
+        if k >= n:
+            break
+        # pattern up to the top-level `=>`
+        parts = _top_split(body[k:], "=>")
+        if len(parts) < 2:
+            raise KeyError("match arm without =>: " + body[k:k + 60])
+        pat = parts[0]
+        k += len(pat) + 2
+        while k < n and body[k] in " \t\r\n":
+            k += 1
+        if body[k] == "{":
+            depth, e = 0, k
+            while True:
+                c = body[e]
+                depth += (c == "{") - (c == "}")
+                if depth == 0:
+                    break
+                e += 1
+            rhs = body[k + 1:e]
+            k = e + 1
+        else:
+            rhs = _top_split(body[k:], ",")[0]
+            k += len(rhs)
+        arms.append((_norm(pat), _norm(rhs)))
+    return _norm(m.group(1)), arms, text[:m.start()], text[j + 1:]
+
+
+_OBJ_GUARD = re.compile(r"^matches!\(\s*\w+\.repr\(\)\s*,\s*(ObjectRepr::\w+(?:\s*\|\s*ObjectRepr::\w+)*)\s*\)$")
+
+
+def _selectors(pat):
+    """normalised selectors of one arm pattern: repr:X, obj:X, obj:*, kind:X, some, absent, * - anything else starts with `?`"""
+    pg = _top_split(pat, " if ")
+    pat, guard = pg[0].strip(), (" if ".join(pg[1:]).strip() if len(pg) > 1 else None)
+    objs = None
+    if guard is not None:
+        g = _OBJ_GUARD.match(guard)
+        if g:
+            objs = re.findall(r"ObjectRepr::(\w+)", g.group(1))
+    sels = []
+    for alt in _top_split(pat, "|"):
+        alt = alt.strip()
+        vr = re.findall(r"ValueRepr::(\w+)", alt)
+        vk = re.findall(r"ValueKind::(\w+)", alt)
+        orp = re.findall(r"ObjectRepr::(\w+)", alt)
+        if alt == "_":
+            sels.append("*")
+        elif alt == "None":
+            sels.append("absent")
+        elif len(vr) == 1 and not vk and not orp:
+            if vr[0] == "Object" and objs is not None:
+                sels += ["obj:" + o for o in objs]
+                guard = None
+            elif vr[0] == "Object":
+                sels.append("obj:*")
+            else:
+                sels.append("repr:" + vr[0])
+        elif len(vk) == 1 and not vr and not orp:
+            sels.append("kind:" + vk[0])
+        elif len(orp) == 1 and not vr and not vk:
+            sels.append("obj:" + orp[0])
+        elif re.match(r"^Some\(\s*(ref\s+)?\w+\s*\)$", alt):
+            if objs is not None:
+                sels += ["obj:" + o for o in objs]
+                guard = None
+            else:
+                sels.append("some")
+        else:
+            sels.append("?" + alt[:40])
+    if guard is not None:
+        sels = ["?guard " + guard[:60]]
+    return sels
+
+
+def _action(rhs):
+    """what an arm does, as far as the dispatch is concerned"""
+    r = rhs.strip()
+    m = re.match(r"^visitor\.(visit_\w+)\(", r)
+    if m:
+        return m.group(1)
+    if re.match(r"^(return\s+)?Err\(", r):
+        return "err"
+    if r.startswith("Deserializer::deserialize_any( SeqDeserializer::new(") or r.startswith("Deserializer::deserialize_any(SeqDeserializer::new("):
+        return "seq_any"
+    if r.startswith("Deserializer::deserialize_any( MapDeserializer::new(") or r.startswith("Deserializer::deserialize_any(MapDeserializer::new("):
+        return "map_any"
+    if re.match(r"^seed\.deserialize\(\w+\)$", r):
+        return "seed"
+    if re.match(r"^Deserialize::deserialize\(\w+\)$", r):
+        return "unit_from_value"
+    m = re.match(r"^self\.(deserialize_\w+)\(visitor\)$", r)
+    if m:
+        return "fwd:" + m.group(1)
+    if r == "Ok(())":
+        return "ok_unit"
+    if r == "(self, None)":
+        return "variant_is_self"
+    if "get_item_opt(&variant)" in r and r.endswith("(variant, val)") and r.count("map with a single key") == 2:
+        return "variant_is_single_key"
+    return "?" + r[:60]
+
+
+@item("SERDE_DE_DISPATCH")
+def _serde_de_dispatch(repo):
+    """every `match` on the source value in deserialize.rs (the owned deserializer and the variant access), arm by
+    arm: which representations / kinds an arm selects and what it does; plus `Value::kind()` (representation → kind)"""
+    d = _strip_comments(read(repo, "minijinja/src/value/deserialize.rs"))
+    mod = _strip_comments(read(repo, "minijinja/src/value/mod.rs"))
+    own = fn_body(d, r"impl<'de> Deserializer<'de> for Value\s*\{")
+    var = fn_body(d, r"impl<'de> VariantAccess<'de> for VariantDeserializer\s*\{")
+
+    def fns(body):
+        out = []
+        for m in re.finditer(r"\n    (?:#\[[^\]]*\]\s*)*fn (\w+)", "\n" + body):
+            out.append((m.group(1), fn_body(body[m.start() - 1:], r"fn %s\b[^{]*?\{" % m.group(1))))
+        return out
+
+    def table(prefix, body):
+        rows = []
+        for name, fb in fns(body):
+            ma = _match_arms(fb)
+            if ma is None:
+                rows.append((prefix + name, "-", [(["*"], _action(_norm(fb)))]))
+                continue
+            scrut, arms, before, after = ma
+            flat = []
+            for pat, rhs in arms:
+                sels = _selectors(pat)
+                sub = _match_arms(rhs) if re.match(r"^match\s+\w+\.repr\(\)\s*\{", rhs) else None
+                if sub is not None and sels == ["obj:*"]:
+                    for spat, srhs in sub[1]:
+                        ss = _selectors(spat)
+                        flat.append((["obj:*" if s == "*" else s for s in ss], _action(srhs)))
+                else:
+                    flat.append((sels, _action(rhs)))
+            # what surrounds the match: `let (variant, value) = match … ; visitor.visit_enum(…)` or nothing
+            around = _norm(before) + " # " + _norm(after)
+            rows.append((prefix + name, scrut + (" @ " + around if around != " # " else ""), flat))
+        return rows
+
+    rows = table("Value::", own) + table("Variant::", var)
+    if not any(r[0] == "Value::deserialize_any" for r in rows):
+        raise KeyError("deserialize_any")
+    kb = fn_body(mod, r"pub fn kind\(&self\) -> ValueKind\s*\{")
+    km = _match_arms(kb)
+    if km is None or km[0] != "self.0" or _norm(km[2]) or _norm(km[3]):
+        raise KeyError("Value::kind is not a single match on self.0")
+    kinds = []
+    for pat, rhs in km[1]:
+        sels = _selectors(pat)
+        sub = _match_arms(rhs) if re.match(r"^match\s+\w+\.repr\(\)\s*\{", rhs) else None
+        if sub is not None and sels == ["obj:*"]:
+            for spat, srhs in sub[1]:
+                for s in _selectors(spat):
+                    kinds.append(("obj:*" if s == "*" else s, srhs.replace("ValueKind::", "")))
+        else:
+            for s in sels:
+                kinds.append((s, rhs.replace("ValueKind::", "")))
+    # the variants of both enums
+    vr = re.findall(r"\n    (\w+)", "\n" + re.sub(r"\([^)]*\)", "", fn_body(mod, r"pub\(crate\) enum ValueRepr\s*\{")))
+    obj_src = _strip_comments(read(repo, "minijinja/src/value/object.rs"))
+    orp = re.findall(r"\n    (\w+)\s*,", "\n" + re.sub(r"#\[[^\]]*\]", "", fn_body(obj_src, r"pub enum ObjectRepr\s*\{")))
+    val = {"dispatch": rows, "kind_of": kinds, "value_repr": vr, "object_repr": orp}
+
+    def lst(xs):
+        return "[" + ", ".join(lean_str(x) for x in xs) + "]"
+    lean = ("-- (function, scrutinee, arms: (selectors, action))\n"
+            "def serdeDeDispatch : List (String × String × List (List String × String)) := [\n  "
+            + ",\n  ".join(f"({lean_str(n)}, {lean_str(s)}, [" + ", ".join(f"({lst(a)}, {lean_str(b)})" for a, b in arms) + "])" for n, s, arms in rows)
+            + "]\n"
+            "def valueKindOfRepr : List (String × String) := [" + ", ".join(f"({lean_str(a)}, {lean_str(b)})" for a, b in kinds) + "]\n"
+            f"def valueReprVariants : List String := {lst(vr)}\n"
+            f"def objectReprVariants : List String := {lst(orp)}")
+    return val, lean
